@@ -1,4 +1,5 @@
 import LolHtml.Lemmas.TagEmit
+import LolHtml.Lemmas.Preserve
 import LolHtml.Model.AttrsApi
 import LolHtml.Gen.Syntax
 import LolHtml.Gen.Tags
@@ -72,12 +73,75 @@ theorem C16_outline (env : Env κ) (hok : TagStatesOk env.tbl = true) (inp : Byt
   rw [data_of_ok hok] at hs
   subst st np r ls
   let F : Frame κ := ⟨il, ca, lsh, ltt, i, cnt, fd, x⟩
-  obtain ⟨k, cJ, lJ, tr, hF, htr, hk, hrun⟩ := run_startTag hok F i rfl en cq hq tps ct cattr t hspec
+  obtain ⟨k, cJ, lJ, tr, hF, htr, hk, hrun⟩ := run_startTag hok F i rfl en cq hq tps ct cattr (.finished t) hspec
   refine ⟨k, cJ, lJ, tr, hk, ⟨hF.nextPos, hF.ls, hF.curTag, hF.isLast, hF.cdata, hF.lsh, hF.ltt, ?_⟩, htr, hrun⟩
   intro l' hl'
   simp only [Regs.lexer.injEq] at hl'
   subst hl'
   exact ⟨hF.fd, hF.cnt⟩
+
+/-- **C16_outline (unfinished tag).** If the spec says the bytes end inside the tag, the lexer makes `k`
+silent calls (sink and simulator untouched) and the next call is the end-of-input step of a tag state
+(`eofStep`: on the last chunk `emit_raw_without_token_and_eof`, i.e. the raw bytes `[i, |inp|)` without a
+token and the EOF lexeme, both through `handle_non_tag_content`; otherwise `break_on_end_of_input`,
+which keeps everything from `i` on for the next chunk). `emit_tag` is not reached: no tag lexeme. -/
+theorem C16_outline_unfinished (env : Env κ) (hok : TagStatesOk env.tbl = true) (inp : Bytes) (i : Nat) (m : M κ)
+    (hm : AtTagStart env.tbl m i) (hspec : startTagAt inp i = some .unfinished) :
+    ∃ k cE lE, cE.nextPos = inp.length + 1 ∧ cE.isLast = m.c.isLast ∧ lE.lexemeStart = i ∧
+      ∀ fuel, runLoop env inp (k + 1 + fuel) m = cont env inp fuel (eofStep env inp cE lE m.x) := by
+  obtain ⟨hs, hp, ⟨l, hl, hls⟩, hq⟩ := hm
+  obtain ⟨c, r, x⟩ := m
+  obtain ⟨np, il, st, en, ca, lsh, cq, ltt⟩ := c
+  obtain ⟨ls, tps, ct, cnt, cattr, fd⟩ := l
+  simp only at hs hp hl hls hq
+  rw [data_of_ok hok] at hs
+  subst st np r ls
+  let F : Frame κ := ⟨il, ca, lsh, ltt, i, cnt, fd, x⟩
+  obtain ⟨k, cE, lE, e1, e2, _, _, _, e6, hrun⟩ := run_startTag hok F i rfl en cq hq tps ct cattr .unfinished hspec
+  exact ⟨k, cE, lE, e1, e2, e6, hrun⟩
+
+/-- the end-of-input step never calls `handle_tag`: whatever the sink, its state afterwards is the old
+one, or the old one after `handle_non_tag_content` of the raw bytes and then possibly of the EOF lexeme -/
+theorem eofStep_sink (env : Env κ) (inp : Bytes) (c : Common) (l : LexRegs) (x : Ctx κ) :
+    (eofStep env inp c l x).1.x.sink = x.sink ∨
+    (∃ lx, (eofStep env inp c l x).1.x.sink = (env.ops.handleNonTag inp lx x.sink).1) ∨
+    (∃ lx lx', (eofStep env inp c l x).1.x.sink =
+        (env.ops.handleNonTag inp lx' (env.ops.handleNonTag inp lx x.sink).1).1) := by
+  have h1 : ∀ (c : Common) (l : LexRegs) (x : Ctx κ) (o : Option NonTagOutline) (e : Nat),
+      (lexEmitNonTag env inp c l x o e).1.x.sink = (env.ops.handleNonTag inp ⟨x.prevConsumed, ⟨l.lexemeStart, e⟩, o⟩ x.sink).1 := by
+    intro c l x o e
+    unfold lexEmitNonTag
+    dsimp only
+    split <;> rfl
+  have h2 : (andThen (lexEmitNonTag env inp c l x none c.pos) (lexEmitEof env inp)).1.x.sink =
+        (env.ops.handleNonTag inp ⟨x.prevConsumed, ⟨l.lexemeStart, c.pos⟩, none⟩ x.sink).1 ∨
+      ∃ lx', (andThen (lexEmitNonTag env inp c l x none c.pos) (lexEmitEof env inp)).1.x.sink =
+        (env.ops.handleNonTag inp lx' (env.ops.handleNonTag inp ⟨x.prevConsumed, ⟨l.lexemeStart, c.pos⟩, none⟩ x.sink).1).1 := by
+    unfold andThen
+    split
+    · exact Or.inl (h1 _ _ _ _ _)
+    · right
+      unfold lexEmitEof
+      split
+      · rw [h1, h1]; exact ⟨_, rfl⟩
+      · rename_i hr
+        exfalso
+        revert hr
+        unfold lexEmitNonTag
+        dsimp only
+        split <;> simp
+  unfold eofStep
+  split
+  · split
+    · rcases h2 with h | ⟨lx', h⟩
+      · exact Or.inr (Or.inl ⟨_, h⟩)
+      · exact Or.inr (Or.inr ⟨_, _, h⟩)
+    · rw [breakOnEndOfInput_sink]
+      rcases h2 with h | ⟨lx', h⟩
+      · exact Or.inr (Or.inl ⟨_, h⟩)
+      · exact Or.inr (Or.inr ⟨_, _, h⟩)
+  · left
+    rw [breakOnEndOfInput_sink]
 
 /-- **C16_emit_tag.** `emit_tag` on the registers of `C16_outline`: the sink is either not called at
 all (the simulator refused the tag) or `handle_tag` is called with the lexeme `[i, j)` carrying the
@@ -168,6 +232,50 @@ theorem C16_outline_recorded (tbl : Table) (cfg : TagCfg) (hok : TagStatesOk tbl
       · rw [hrun fuel, heq]; rfl
       · simp [applyTrans, hrc, hrsim, hrsink, a1, hrl]
 
+/-- **C16_outline_unfinished_recorded.** With the recording sink: if the spec says the tag is unfinished,
+the run to the end of the input records no tag lexeme — at most the raw remainder `[i, |inp|)` without a
+token and the EOF lexeme (last chunk), or nothing at all (more input may come). -/
+theorem C16_outline_unfinished_recorded (tbl : Table) (cfg : TagCfg) (hok : TagStatesOk tbl = true) (inp : Bytes) (i : Nat)
+    (m : M (List Lexeme)) (hm : AtTagStart tbl m i) (hspec : startTagAt inp i = some .unfinished) :
+    ∃ k, ∀ fuel, ∃ extra : List NonTagLexeme,
+      (runLoop ⟨tbl, cfg, recOps⟩ inp (k + 1 + fuel) m).1.x.sink = m.x.sink ++ extra.map .nonTag ∧
+      (m.c.isLast = false → extra = []) := by
+  obtain ⟨k, cE, lE, e1, e2, e3, hrun⟩ := C16_outline_unfinished ⟨tbl, cfg, recOps⟩ hok inp i m hm hspec
+  refine ⟨k, fun fuel => ?_⟩
+  rw [hrun fuel]
+  have hsig : ∀ r : M (List Lexeme) × Option Signal, r.2.isSome = true →
+      (cont ⟨tbl, cfg, recOps⟩ inp fuel r).1 = r.1 := by
+    intro r hr
+    unfold cont
+    cases h : r.2 with
+    | none => simp [h] at hr
+    | some s => rfl
+  -- the end-of-input step always signals (error, directive or end of input)
+  have hbrk : ∀ m0 : M (List Lexeme), (breakOnEndOfInput inp m0).2.isSome = true := by
+    intro m0
+    unfold breakOnEndOfInput
+    dsimp only
+    (repeat' split) <;> rfl
+  have hsome : (eofStep ⟨tbl, cfg, recOps⟩ inp cE lE m.x).2.isSome = true := by
+    unfold eofStep
+    split
+    · split
+      · rfl
+      · exact hbrk _
+    · exact hbrk _
+  rw [hsig _ hsome]
+  by_cases hl : m.c.isLast = true
+  · rcases eofStep_sink ⟨tbl, cfg, recOps⟩ inp cE lE m.x with h | ⟨lx, h⟩ | ⟨lx, lx', h⟩
+    · exact ⟨[], by simp [h], fun _ => rfl⟩
+    · exact ⟨[lx], by rw [h]; simp [recOps], fun hc => by simp [hl] at hc⟩
+    · exact ⟨[lx, lx'], by rw [h]; simp [recOps], fun hc => by simp [hl] at hc⟩
+  · refine ⟨[], ?_, fun _ => rfl⟩
+    have : cE.isLast = false := by rw [e2]; simpa using hl
+    unfold eofStep
+    rw [if_neg (by simp [this])]
+    rw [breakOnEndOfInput_sink]
+    simp
+
 /-- C16_outline on the table generated from the current Rust sources. -/
 theorem C16_outline_gen (cfg : TagCfg) (ops : SinkOps κ) (inp : Bytes) (i : Nat) (m : M κ)
     (hm : AtTagStart Gen.Syntax.table m i) (t : Tag) (hspec : startTagAt inp i = some (.finished t)) :
@@ -194,6 +302,12 @@ example : startTagAt sample 0 = some (.finished ⟨⟨1,2⟩,
 example : (runLoop ⟨Gen.Syntax.table, Gen.Tags.cfg, recOps⟩ sample 40 m0).1.x.sink =
     [.tag ⟨0, ⟨0, 18⟩, .startTag ⟨1,2⟩ (NameHash.ofBytes [97]) .html
       [⟨⟨3,4⟩,⟨5,6⟩,⟨3,6⟩⟩, ⟨⟨7,8⟩,⟨10,13⟩,⟨7,14⟩⟩, ⟨⟨15,16⟩,⟨16,16⟩,⟨15,16⟩⟩] true⟩] := by decide +kernel
+
+/-- `<a b='c` never finishes: nothing but the raw remainder and EOF is recorded on the last chunk -/
+example : startTagAt [60,97,32,98,61,39,99] 0 = some .unfinished := by decide +kernel
+example : (runLoop ⟨Gen.Syntax.table, Gen.Tags.cfg, recOps⟩ [60,97,32,98,61,39,99] 40
+      ⟨{ state := 2, isLast := true }, .lexer {}, { sink := [], sim := Sim.new false }⟩).1.x.sink =
+    [.nonTag ⟨0, ⟨0, 7⟩, none⟩, .nonTag ⟨0, ⟨7, 7⟩, some .eof⟩] := by decide +kernel
 
 /-! ## C16_lookup — `get_attribute` / `has_attribute` / `attributes()` / `tag_name()` on the token -/
 
